@@ -11,20 +11,20 @@ package types
 //@      && ufb("denom_valid", a.Denom) && bechok(a.DeputyAddress)
 //@ define assetsOK(s) = forall j:Int :: 0 <= j && j < len(s) ==> assetOK(s[j])
 
-//@ func validateAssetParams
+//@ func validateAssetParams(i)
 //@   inline
 //@   invariant #1 seen: forall j:Int :: 0 <= j && j <= rangeindex ==> assetOK(p.AssetParams[j])
 //@   invariant #1 idx:  rangeindex >= 0 - 1 && rangeindex < len(p.AssetParams)
 //@ end
 
-//@ func Params.Validate
+//@ func Params.Validate()
 //@   property C16, C04
 //@   returns err
 //@   ensures valid: err == nil ==> assetsOK(p.AssetParams)
 //@ end
 
 // Genesis validation (assumed contract for the part InitGenesis relies on: the ids of the listed contracts are distinct)
-//@ func ValidateGenesis
+//@ func ValidateGenesis(data)
 //@   property C12
 //@   trusted
 //@   returns err
